@@ -290,37 +290,37 @@ func TestC12_Enumerated(t *testing.T) {
 	rt.Note("enumerated_scope", fmt.Sprintf("every catalogue row x params x variant x %d scripts: 3 sequential subscriptions; operator value applied to 2 and 3 sources in 3+4 subscription orders", len(scripts)))
 }
 
-func TestC12_Random(t *testing.T) {
-	rapid.Check(t, func(t *rapid.T) {
-		n := rapid.IntRange(1, 4).Draw(t, "chainLen")
-		links := make([]cat.Link, n)
-		for i := range links {
-			links[i] = genLink(t, true)
-		}
-		if chainDiverges(links) {
-			return
-		}
-		script := genScript(t, 8, 1, 4, []byte{'C', 'E'})
-		mode := rapid.SampledFrom([]string{"resubscribe", "concurrent", "apply-many", "interleaved"}).Draw(t, "mode")
-		c := c12Case{Mode: mode, Links: links, Scripts: [][]rt.Ev{script}, N: rapid.IntRange(2, 4).Draw(t, "n")}
-		switch mode {
-		case "concurrent":
-			for _, l := range links {
-				if l.Op == "DoWhile" || l.Op == "While" {
-					return // their loop condition is a stateful closure owned by the harness
-				}
+func TestC12_Random(t *testing.T) { rapid.Check(t, propC12Random) }
+
+func propC12Random(t *rapid.T) {
+	n := rapid.IntRange(1, 4).Draw(t, "chainLen")
+	links := make([]cat.Link, n)
+	for i := range links {
+		links[i] = genLink(t, true)
+	}
+	if chainDiverges(links) {
+		return
+	}
+	script := genScript(t, 8, 1, 4, []byte{'C', 'E'})
+	mode := rapid.SampledFrom([]string{"resubscribe", "concurrent", "apply-many", "interleaved"}).Draw(t, "mode")
+	c := c12Case{Mode: mode, Links: links, Scripts: [][]rt.Ev{script}, N: rapid.IntRange(2, 4).Draw(t, "n")}
+	switch mode {
+	case "concurrent":
+		for _, l := range links {
+			if l.Op == "DoWhile" || l.Op == "While" {
+				return // their loop condition is a stateful closure owned by the harness
 			}
-		case "interleaved":
-			for _, l := range links {
-				if cat.ByName(l.Op).Waits {
-					return // rows that wait inside Subscribe cannot be driven by a manual source
-				}
-			}
-		case "apply-many":
-			c.Scripts = append(c.Scripts, genScript(t, 6, 1, 4, []byte{'C', 'E'}))
-			c.Order = rapid.SliceOfN(rapid.IntRange(0, 1), 2, 4).Draw(t, "order")
 		}
-		c12Run(t, c)
-		rt.Case(caseKey("rand", mode, fmt.Sprint(links), c.Scripts, c.N, c.Order), c12Stateful(links) || n >= 2, "random:"+mode, func() any { return c })
-	})
+	case "interleaved":
+		for _, l := range links {
+			if cat.ByName(l.Op).Waits {
+				return // rows that wait inside Subscribe cannot be driven by a manual source
+			}
+		}
+	case "apply-many":
+		c.Scripts = append(c.Scripts, genScript(t, 6, 1, 4, []byte{'C', 'E'}))
+		c.Order = rapid.SliceOfN(rapid.IntRange(0, 1), 2, 4).Draw(t, "order")
+	}
+	c12Run(t, c)
+	rt.Case(caseKey("rand", mode, fmt.Sprint(links), c.Scripts, c.N, c.Order), c12Stateful(links) || n >= 2, "random:"+mode, func() any { return c })
 }
